@@ -40,6 +40,7 @@ var hostileClasses = []string{
 	"benign", "cr", "lf", "crlf", "crlf-sp", "crlf-field", "crlfcrlf-body", "lf-field", "cr-field", "nul", "c0", "del", "bad-utf8", "utf8",
 	"quote", "backslash", "parens", "angle", "comma", "semicolon", "colon", "encoded-word", "ew-end", "blanks", "long", "long-utf8", "mixed",
 	"backslash-quote", "tab", "leading-blank", "only-blanks", "quote-crlf-field",
+	"ew-q-crlf-field", "ew-b-crlfcrlf", "ew-q-lf-field", "ew-two-words-crlf",
 }
 
 func hostile(r *mrand.Rand, class string, n int) string {
@@ -109,6 +110,15 @@ func hostile(r *mrand.Rand, class string, n int) string {
 		return strings.Repeat(w()+" ", 50+r.Intn(400)) + sent
 	case "long-utf8":
 		return strings.Repeat("längé ", 50+r.Intn(300)) + sent
+	case "ew-q-crlf-field":
+		// the outer form of one valid encoded-word, with a line break and a field inside the encoded text
+		return "=?UTF-8?q?" + sent + "\r\nX-Inj-" + fmt.Sprint(n) + ":_1\r\nX-Rest:?="
+	case "ew-q-lf-field":
+		return "=?utf-8?Q?" + sent + "\nX-Inj-" + fmt.Sprint(n) + ":_1\nX-Rest:?="
+	case "ew-b-crlfcrlf":
+		return "=?UTF-8?b?QUJD\r\n\r\nX-Inj-" + fmt.Sprint(n) + ": 1\r\nQUJD?="
+	case "ew-two-words-crlf":
+		return "=?UTF-8?q?" + sent + "?= =?UTF-8?q?x\r\nX-Inj-" + fmt.Sprint(n) + ":_1\r\ny?="
 	case "mixed":
 		return "ü\"\\\r\n" + inj + "\r\n\x00\xff(,;:<>" + sent
 	}
